@@ -32,7 +32,7 @@ def generate(tier, seed):
             RF("g", "g", 0, ["alice"]), "ar:alice:admin:-", "dr:alice:admin:-", "du:alice", "dra:admin", "dpsf:alice",
             "CL", "LD", "LF:%s:%s" % (enc_rule(["alice"]), enc_rule([])), "SV",
             "SM:" + other_spec(), "SM:" + sp, "SA:" + adapter_M([["p", "p"] + pr[2], ["g", "g"] + gr[1]]), "SA:N",
-            "SR:10", "BR", "EE:0", "EE:1", "SE", "AF:keyMatch:neq", "AF:myfn:true", "ES:0", "ES:1", "EB:0", "EB:1", "EN:0", "EN:1"]
+            "SR:10", "BR", "EE:0", "EE:1", "SE", "AF:keyMatch:neq", "AF:g:eq", "ES:0", "ES:1", "EB:0", "EB:1", "EN:0", "EN:1"]
     reqs = [["alice", "data1", "read"], ["bob", "data1", "read"], ["bob", "data2", "read"], ["alice", "data2", "read"], ["root", "data1", "read"],
             ["alice", "data1"]]
 
@@ -132,7 +132,7 @@ def generate(tier, seed):
         "exhaustive": False,
         "rule": ("a model with plain and '2'-suffixed sections that decide differently on equal values; every history of <= 2 calls over the complete public "
                  "mutating surface (%d calls: management, RBAC helpers, clear_policy, load_policy, load_filtered_policy, save_policy, set_model (two models), "
-                 "set_adapter, set_role_manager, build_role_links, enable_enforce, set_effector, add_function (overriding a built-in used by both matchers; a fresh name), "
+                 "set_adapter, set_role_manager, build_role_links, enable_enforce, set_effector, add_function (overriding a built-in used by both matchers, and the role function g), "
                  "auto-save/build/notify toggles), a block of plain and context-qualified requests (each issued twice) before the history and after every call; "
                  "seeded random interleavings up to length 80, also with failing adapters; a model with allow-override e and deny-override e2 over shared sections "
                  "queried through hand-assembled EnforceContext values (all 16 combinations of section names, contexts differing in one name only issued "
